@@ -9,9 +9,15 @@ use gen::*;
 use std::io::BufRead;
 use vh::*;
 
-fn iterate<R: BufRead>(rd: R, start: u32, limit: usize) -> Vec<Value> {
+fn iterate<R: BufRead>(rd: R, start: u32, limit: usize, with_log: bool) -> Vec<Value> {
+    // with_log: a (discarding) slog logger is attached - the iterator then keeps extra state (log_skipped) and runs its debug! branches;
+    // the recognised messages and counters must be the same
+    let logger = slog::Logger::root(slog::Discard, slog::o!());
     let r = catch(std::panic::AssertUnwindSafe(|| {
         let mut it = DltMessageIterator::new(start, rd);
+        if with_log {
+            it.log = Some(&logger);
+        }
         let mut out = vec![];
         loop {
             match it.next() {
@@ -56,6 +62,7 @@ struct Stats {
     long_by_reader: [u64; 4],
     long_partial_marker: u64,
     tail_grid: u64,
+    with_logger: u64,
 }
 
 fn run_case(t: &mut Trace, st: &mut Stats, case: u64, stream: &Stream, start: u32, reader: u64, origin: &str) {
@@ -111,15 +118,19 @@ fn run_case(t: &mut Trace, st: &mut Stats, case: u64, stream: &Stream, start: u3
             st.long_by_reader[reader as usize % 4] += 1;
         }
     }
-    let rname = ["slice", "cursor", "lowmark-512k", "lowmark-min"][reader as usize % 4];
+    let with_log = reader % 8 >= 4;
+    if with_log {
+        st.with_logger += 1;
+    }
+    let rname = format!("{}{}", ["slice", "cursor", "lowmark-512k", "lowmark-min"][reader as usize % 4], if with_log { "+log" } else { "" });
     t.ev(json!({"ev":"reset","case":case,"hdr":{"framing": if stream.serial {"serial"} else {"storage"},"start":start,"total":lay.bytes.len(),
         "msgs":msgs,"garb":lay.garb,"origin":origin,"reader":rname,"spurious_markers":spurious_markers(stream)}}));
     let limit = lay.msgs.len() + 5;
     let evs = match reader % 4 {
-        0 => iterate(&lay.bytes[..], start, limit),
-        1 => iterate(std::io::Cursor::new(lay.bytes.clone()), start, limit),
-        2 => iterate(LowMarkBufReader::new(std::io::Cursor::new(lay.bytes.clone()), 512 * 1024, DLT_MAX_STORAGE_MSG_SIZE), start, limit),
-        _ => iterate(LowMarkBufReader::new(std::io::Cursor::new(lay.bytes.clone()), DLT_MAX_STORAGE_MSG_SIZE + 4096, DLT_MAX_STORAGE_MSG_SIZE), start, limit),
+        0 => iterate(&lay.bytes[..], start, limit, with_log),
+        1 => iterate(std::io::Cursor::new(lay.bytes.clone()), start, limit, with_log),
+        2 => iterate(LowMarkBufReader::new(std::io::Cursor::new(lay.bytes.clone()), 512 * 1024, DLT_MAX_STORAGE_MSG_SIZE), start, limit, with_log),
+        _ => iterate(LowMarkBufReader::new(std::io::Cursor::new(lay.bytes.clone()), DLT_MAX_STORAGE_MSG_SIZE + 4096, DLT_MAX_STORAGE_MSG_SIZE), start, limit, with_log),
     };
     for e in evs {
         t.ev(e);
@@ -207,7 +218,7 @@ fn main() {
     let mut t = Trace::create(&a.str("--out", "trace.ndjson"));
     let mut st = Stats { cases: 0, shapes: [0; 64], garb_before: 0, garb_between: 0, garb_after: 0, trailing_short: 0, max_payload: 0, empty_payload: 0, msgs: 0,
         serial_cases: 0, storage_cases: 0, long_leading: [0; 2], long_between: [0; 2], long_before_last: [0; 2], long_trailing: [0; 2], long_by_reader: [0; 4],
-        long_partial_marker: 0, tail_grid: 0 };
+        long_partial_marker: 0, tail_grid: 0, with_logger: 0 };
     let seed = a.num("--seed", 1);
     let mut rng = Rng::new(seed ^ 0xC01);
     let mut case = a.num("--first-case", 0);
@@ -244,7 +255,7 @@ fn main() {
                     }
                 }
                 sanitize(&mut s, &mut rng);
-                run_case(&mut t, &mut st, case, &s, start, case + v, "tlc");
+                run_case(&mut t, &mut st, case, &s, start, case + v + 4 * ((si as u64 / 2) % 2), "tlc");
                 case += 1;
             }
         }
@@ -267,7 +278,7 @@ fn main() {
                                 st.long_partial_marker += 1;
                             }
                             let start = if (li + reader as usize) % 2 == 0 { 0 } else { rng.below(1 << 30) as u32 };
-                            run_case(&mut t, &mut st, case, &s, start, reader, "scale");
+                            run_case(&mut t, &mut st, case, &s, start, reader + 4 * ((li as u64 + style) % 2), "scale");
                             case += 1;
                         }
                     }
@@ -290,7 +301,7 @@ fn main() {
                             sanitize(&mut s, &mut rng);
                             st.tail_grid += 1;
                             let start = if (tlen + reader as usize) % 2 == 0 { 0 } else { rng.below(1 << 30) as u32 };
-                            run_case(&mut t, &mut st, case, &s, start, reader, "tail-grid");
+                            run_case(&mut t, &mut st, case, &s, start, reader + 4 * ((tlen as u64 + style) % 2), "tail-grid");
                             case += 1;
                         }
                     }
@@ -301,7 +312,7 @@ fn main() {
     for _ in 0..a.num("--random", 0) {
         let s = random_stream(&mut rng, a.num("--max-msgs", 60));
         let start = if rng.chance(1, 2) { 0 } else { rng.below(1 << 30) as u32 };
-        run_case(&mut t, &mut st, case, &s, start, rng.below(4), "random");
+        run_case(&mut t, &mut st, case, &s, start, rng.below(8), "random");
         case += 1;
     }
     // repository example files: plain concatenations of storage-framed messages (checked by an independent walk)
@@ -340,7 +351,7 @@ fn main() {
     println!("{}", json!({"cases": case, "lines": t.lines, "scenarios": n_scn, "model_predicted_kf": predicted_kf, "msgs": st.msgs,
         "shapes_storage": shapes_storage, "shapes_serial": shapes_serial, "garbage_before": st.garb_before, "garbage_between": st.garb_between,
         "garbage_after": st.garb_after, "trailing_short_run": st.trailing_short, "max_payload_msgs": st.max_payload, "empty_payload_msgs": st.empty_payload,
-        "serial_cases": st.serial_cases, "storage_cases": st.storage_cases, "files": files, "tail_grid_cases": st.tail_grid,
+        "serial_cases": st.serial_cases, "storage_cases": st.storage_cases, "files": files, "tail_grid_cases": st.tail_grid, "cases_with_logger": st.with_logger,
         "long_garbage": {"leading_storage": st.long_leading[0], "leading_serial": st.long_leading[1], "between_storage": st.long_between[0],
             "between_serial": st.long_between[1], "before_last_storage": st.long_before_last[0], "before_last_serial": st.long_before_last[1],
             "trailing_storage": st.long_trailing[0], "trailing_serial": st.long_trailing[1], "via_slice": st.long_by_reader[0], "via_cursor": st.long_by_reader[1],
